@@ -110,8 +110,8 @@ func (h *H) twoPeersRound(S, Hn *Node, ovh, round int) bool {
 	go func() { S.Sys.Tell(refR, mR); retDone <- time.Since(t0) }()
 	sumMs := 100 * ((1 << lim) - 1) // nominal sum of the back-off sleeps
 	bound := time.Duration(10*sumMs) * time.Millisecond
-	if bound < 8*time.Second {
-		bound = 8 * time.Second
+	if bound < 15*time.Second {
+		bound = 15 * time.Second
 	}
 	dlTag := fmt.Sprintf("dl%d:%d", mR.Sender, mR.Seq)
 	countDL := func() int {
@@ -133,7 +133,7 @@ func (h *H) twoPeersRound(S, Hn *Node, ovh, round int) bool {
 		select {
 		case tellDur = <-retDone:
 			returned = true
-		case <-time.After(3 * time.Second):
+		case <-time.After(10 * time.Second):
 		}
 		// anything that still comes for this message (a further dial, a second dead letter) shows up now
 		time.Sleep(150 * time.Millisecond)
@@ -176,7 +176,7 @@ func (h *H) twoPeersRound(S, Hn *Node, ovh, round int) bool {
 		}
 		if !returned {
 			stuck = true
-			h.o.Monitor("c14-tell-never-returns", desc, fmt.Sprintf("two peers: the message to the refusing peer was dead-lettered after %.0f ms but the Tell had not returned 3 s later", dlAfter.Seconds()*1000))
+			h.o.Monitor("c14-tell-never-returns", desc, fmt.Sprintf("two peers: the message to the refusing peer was dead-lettered after %.0f ms but the Tell had not returned 10 s later", dlAfter.Seconds()*1000))
 		}
 		h.o.Stats["two-peers-dead-letter-ms"] += int(dlAfter.Milliseconds())
 		_ = tellDur
@@ -208,9 +208,9 @@ func (h *H) twoPeersRound(S, Hn *Node, ovh, round int) bool {
 		}
 		return n
 	}
-	waitUntil(5*time.Second, func() bool { return okCount() >= nH })
+	waitUntil(15*time.Second, func() bool { return okCount() >= nH })
 	// ... and delivered exactly once, in order
-	waitUntil(5*time.Second, func() bool { return Hn.Rec.Len()-sc.m.rec >= nH })
+	waitUntil(15*time.Second, func() bool { return Hn.Rec.Len()-sc.m.rec >= nH })
 	time.Sleep(20 * time.Millisecond)
 	var have []uint64
 	for _, g := range Hn.Rec.Snapshot(sc.m.rec) {
